@@ -59,15 +59,40 @@ class BehavioralRTLIRGenL1Pass( RTLIRPass ):
       bir.CombUpblk : get_ordered_upblks(m),
       bir.SeqUpblk  : get_ordered_update_ff(m),
     }
+    # The function name of a lambda block contains the full path of the
+    # signal it drives, i.e. the position of this instance in the
+    # hierarchy. Two instances of one component must get the same IR, so
+    # the IR name of a lambda block is relative to the component.
+    def mangle( name ):
+      for ch in ".[]:":
+        name = name.replace( ch, "_" )
+      return name
+    all_blks = upblks[bir.CombUpblk] + upblks[bir.SeqUpblk]
+    prefix   = "_lambda__" + mangle( repr(m) )
+    ir_name  = { blk: blk.__name__ for blk in all_blks }
+    taken    = set()
+    lambdas  = []
+    for blk in all_blks:
+      if m.get_update_block_info( blk )[0] and blk.__name__.startswith( prefix ):
+        lambdas.append( blk )
+      else:
+        taken.add( blk.__name__ )
+    for blk in sorted( lambdas, key = lambda x: x.__name__ ):
+      name = "_lambda__s" + blk.__name__[ len(prefix): ]
+      while name in taken:
+        name += "_"
+      taken.add( name )
+      ir_name[ blk ] = name
+
     # Sort the upblks by their name
-    upblks[bir.CombUpblk].sort( key = lambda x: x.__name__ )
-    upblks[bir.SeqUpblk ].sort( key = lambda x: x.__name__ )
+    upblks[bir.CombUpblk].sort( key = lambda x: ir_name[x] )
+    upblks[bir.SeqUpblk ].sort( key = lambda x: ir_name[x] )
 
     for upblk_type in ( bir.CombUpblk, bir.SeqUpblk ):
       for blk in upblks[ upblk_type ]:
         visitor._upblk_type = upblk_type
         upblk_info = m.get_update_block_info( blk )
-        upblk = visitor.enter( blk, upblk_info[-1] )
+        upblk = visitor.enter( blk, upblk_info[-1], ir_name[ blk ] )
         upblk.is_lambda = upblk_info[0]
         upblk.src       = upblk_info[1]
         upblk.lino      = upblk_info[2]
@@ -86,9 +111,12 @@ class BehavioralRTLIRGeneratorL1( ast.NodeVisitor ):
     else:
       s.visit_Subscript = s._visit_Subscript_starting_py39
 
-  def enter( s, blk, ast ):
+  def enter( s, blk, ast, name = None ):
     """Entry point of RTLIR generation."""
     s.blk     = blk
+
+    # The name of the block in the IR
+    s._ir_name = name or blk.__name__
 
     # s.globals contains a dict of the global namespace of the module where
     # blk was defined
@@ -154,10 +182,10 @@ class BehavioralRTLIRGeneratorL1( ast.NodeVisitor ):
         'Update blocks should not have arguments!' )
 
     # Save the name of the upblk
-    s._upblk_name = node.name
+    s._upblk_name = s._ir_name
 
     # Construct the node using the type of upblk
-    ret = s._upblk_type( node.name, [] )
+    ret = s._upblk_type( s._ir_name, [] )
 
     for stmt in node.body:
       ret.body.append( s.visit( stmt ) )
@@ -417,7 +445,7 @@ class BehavioralRTLIRGeneratorL1( ast.NodeVisitor ):
         # A closure variable could be a loop index. We need to
         # generate per-function closure variable instead of assuming
         # they will have the same value.
-        ret = bir.FreeVar( f"{node.id}_at_{s.blk.__name__}", obj )
+        ret = bir.FreeVar( f"{node.id}_at_{s._ir_name}", obj )
       ret.ast = node
       return ret
     elif node.id in s.globals:
